@@ -123,7 +123,7 @@ contract(
     f"{M}:_remove",
     params=dict(path=TStr, fs=FileSystem, in_cache=TBool, force=TBool, prompt=Prompt),
     raises={"PromptError": (_remove_may_raise, lambda c: And(files(c.h, c.fs) == files(c.h0, c.fs), removed(c.h, c.fs) == removed(c.h0, c.fs)))},
-    modifies=lambda c: [("FileSystem.files", c.fs), ("FileSystem.removed", c.fs)],
+    modifies=lambda c: [("FileSystem.files", c.fs), ("FileSystem.removed", c.fs), ("G.lfiles",), ("G.l444",)],
     ensures=lambda c: And(
         # whatever is taken away was consented to, recoverable from the cache, or was not there
         Implies(And(files(c.h0, c.fs).contains(c.path), removed(c.h, c.fs) != removed(c.h0, c.fs)), Or(c.force, c.in_cache, approved(c))),
@@ -163,7 +163,7 @@ contract(
     requires=lambda c: And(_types(c).length() >= 1, c.change.new.oid.is_some, c.change.new.oid.val.value.is_some,
                            c.change.new.oid.val.value.val.length() > 0),
     raises={"PromptError": (None, lambda c: removed(c.h, c.fs) == removed(c.h0, c.fs)), "CheckoutError": (None, lambda c: _cf_post(c))},
-    modifies=lambda c: [("FileSystem.files", c.fs), ("FileSystem.removed", c.fs)],
+    modifies=lambda c: [("FileSystem.files", c.fs), ("FileSystem.removed", c.fs), ("G.lfiles",), ("G.l444",)],
     ensures=_cf_post,
     props=["C05"],
     doc="every overwrite goes through the guarded removal, with the cache status of the OLD object",
